@@ -586,6 +586,41 @@ pub(crate) mod b {
                 }
             }
         }
+        // a label that fills the interior from side to side: every ASCII letter and digit next to the sides
+        // (letters such as o, O, v, x carry drawing signals of their own and must not make a side grow a stub)
+        for (style, c, _inset) in corners.iter().filter(|c| c.2 == 0) {
+            for ch in ('a'..='z').chain('A'..='Z').chain('0'..='9') {
+                if ch == 'X' {
+                    continue; // a drawing letter, not plain text: its two diagonals are strong strokes that join the corners
+                }
+                for (w, h) in [(1usize, 1usize), (4, 1), (3, 2)] {
+                    let label: String = std::iter::repeat(ch).take(w).collect();
+                    let mut rows = vec![format!("   {}{}{}", c[0], "-".repeat(w), c[1])];
+                    for i in 0..h {
+                        rows.push(format!("   |{}|", if i == 0 { label.clone() } else { " ".repeat(w) }));
+                    }
+                    rows.push(format!("   {}{}{}", c[2], "-".repeat(w), c[3]));
+                    let text = format!("\n\n{}\n", rows.join("\n"));
+                    let cb = CellBuffer::from(text.as_str());
+                    let (mut rects, mut others) = (0, 0);
+                    for sp in Vec::<Span>::from(&cb) {
+                        let en = sp.endorse();
+                        for f in en.accepted {
+                            match f.fragment {
+                                Fragment::Rect(_) => rects += 1,
+                                _ => others += 1,
+                            }
+                        }
+                        others += en.rejects.iter().filter(|s| !s.is_empty()).count();
+                    }
+                    if rects != 1 || others != 1 {
+                        println!("BOUNDED-WITNESS box style={} with the label {:?} from side to side: {} rect(s), {} other fragments\n{}", style, label, rects, others, text);
+                        panic!("a drawn box is exactly one matching rect");
+                    }
+                    n += 1;
+                }
+            }
+        }
         println!("BOUNDED-CASES {}", n);
     }
 }
